@@ -16,6 +16,9 @@ type SchemaCache struct {
 	// helpers are only called while it is held.
 	lock     sync.Mutex
 	packages map[string]*Package
+
+	// build is the state of the Schema call in progress
+	build buildState
 }
 
 func NewSchemaCache() *SchemaCache {
@@ -46,21 +49,45 @@ func (sc *SchemaCache) Schema(src protoreflect.MessageDescriptor) (RootSchema, e
 	}
 	schemaPackage.Schemas[nameInPackage] = placeholder
 
-	msgOptions := proto.GetExtension(src.Options(), ext_j5pb.E_Message).(*ext_j5pb.MessageOptions)
-	isOneofWrapper := isOneofWrapper(src, msgOptions)
-	var err error
-	if isOneofWrapper {
-		placeholder.To, err = schemaPackage.buildOneofSchema(src, msgOptions.GetOneof())
-	} else {
-		placeholder.To, err = schemaPackage.buildObjectSchema(src, msgOptions.GetObject())
+	sc.build = buildState{
+		created:      []*RefSchema{placeholder},
+		flattenChain: []string{placeholder.FullName()},
 	}
+
+	built, err := sc.buildRoot(schemaPackage, src)
+	if err == nil && built.FullName() != placeholder.FullName() {
+		err = fmt.Errorf("schema %q has wrong name %q", placeholder.FullName(), built.FullName())
+	}
+	if err != nil {
+		// Nothing built by a failed call stays in the cache: the schemas
+		// would be left with references that are never linked.
+		for _, ref := range sc.build.created {
+			delete(ref.Package.Schemas, ref.Schema)
+		}
+		return nil, err
+	}
+	placeholder.To = built
+	return placeholder.To, nil
+}
+
+func (sc *SchemaCache) buildRoot(schemaPackage *Package, src protoreflect.MessageDescriptor) (RootSchema, error) {
+	msgOptions := proto.GetExtension(src.Options(), ext_j5pb.E_Message).(*ext_j5pb.MessageOptions)
+	if isOneofWrapper(src, msgOptions) {
+		built, err := schemaPackage.buildOneofSchema(src, msgOptions.GetOneof())
+		if err != nil {
+			return nil, err
+		}
+		return built, nil
+	}
+	built, err := schemaPackage.buildObjectSchema(src, msgOptions.GetObject())
 	if err != nil {
 		return nil, err
 	}
-	if placeholder.To.FullName() != placeholder.FullName() {
-		return nil, fmt.Errorf("schema %q has wrong name %q", placeholder.FullName(), placeholder.To.FullName())
-	}
-	return placeholder.To, nil
+	return built, nil
+}
+
+func (sc *SchemaCache) buildInProgress() *buildState {
+	return &sc.build
 }
 
 func (sc *SchemaCache) refTo(pkg, schema string) (*RefSchema, bool) {
@@ -74,6 +101,7 @@ func (sc *SchemaCache) refTo(pkg, schema string) (*RefSchema, bool) {
 		Schema:  schema,
 	}
 	refPackage.Schemas[schema] = refSchema
+	sc.build.created = append(sc.build.created, refSchema)
 
 	return refSchema, false
 }
